@@ -329,6 +329,14 @@ M('C13', 'unbatch-inner-axis', DS, "      for v in jnp.split(v_array, indices_or
 M('C13', 'replica-index-mismatch', DS, "            all_exponents[current_replica],\n            all_paddings[current_replica],\n            _maybe_ix(all_preconditioners, current_replica),", "            all_exponents[current_replica],\n            all_paddings[0],\n            _maybe_ix(all_preconditioners, current_replica),")
 M('C13', 'prev-precond-replica-0', DS, "            all_paddings[current_replica],\n            _maybe_ix(all_preconditioners, current_replica),", "            all_paddings[current_replica],\n            _maybe_ix(all_preconditioners, 0),")
 M('C13', 'quantized-prev-bucket-replica-0', DS, "           _maybe_ix(all_quantized_precond_bucket_sizes, current_replica),", "           _maybe_ix(all_quantized_precond_bucket_sizes, 0),")
+M('C13', 'one-exponent-per-state', DS, "        for statistic in state.statistics:\n          exponents.append(preconditioner.exponent_for_preconditioner(\n          ) if exponent_override == 0 else exponent_override)\n          original_shapes_for_state.append(statistic.shape)",
+  "        exponents.append(preconditioner.exponent_for_preconditioner(\n        ) if exponent_override == 0 else exponent_override)\n        for statistic in state.statistics:\n          original_shapes_for_state.append(statistic.shape)")
+M('C13', 'prev-preconditioners-unguarded', DS, "        statistics.extend(state.statistics)\n        prev_preconditioners.extend(state.preconditioners)\n        original_shapes.extend(original_shapes_for_state)",
+  "        statistics.extend(state.statistics)\n        original_shapes.extend(original_shapes_for_state)\n      prev_preconditioners.extend(state.preconditioners[:1])")
+M('C13', 'per-state-count-skips-empty', DS, "      num_statistics = len(state.statistics)\n      num_statistics_per_state.append(num_statistics)\n      original_shapes_for_state = []\n      if num_statistics > 0:",
+  "      num_statistics = len(state.statistics)\n      original_shapes_for_state = []\n      if num_statistics > 0:\n        num_statistics_per_state.append(num_statistics)")
+TW('C13', 'twin-exponent-hoisted', DS, "        for statistic in state.statistics:\n          exponents.append(preconditioner.exponent_for_preconditioner(\n          ) if exponent_override == 0 else exponent_override)\n          original_shapes_for_state.append(statistic.shape)",
+  "        exponents.extend([preconditioner.exponent_for_preconditioner(\n        ) if exponent_override == 0 else exponent_override] * num_statistics)\n        for statistic in state.statistics:\n          original_shapes_for_state.append(statistic.shape)")
 M('C13', 'gather-other-axis', DS, "        preconditioners = jax.lax.all_gather(preconditioners, batch_axis_name)\n        metrics = jax.lax.all_gather(metrics, batch_axis_name)\n        preconditioners_flat = unbatch(preconditioners)", "        preconditioners = jax.lax.all_gather(preconditioners, 'batch')\n        metrics = jax.lax.all_gather(metrics, batch_axis_name)\n        preconditioners_flat = unbatch(preconditioners)")
 M('C13', 'quantized-precond-diag-slice', DS, "      ] + packed_quantized_diagonals[total - to_pad:]", "      ] + packed_quantized_diagonals[total - to_pad + 1:]")
 TW('C13', 'twin-pad-formula-variable', DS, "    to_pad = -num_statistics % num_devices\n    packed_statistics.extend([", "    to_pad = (-num_statistics) % num_devices\n    packed_statistics.extend([")
@@ -344,6 +352,8 @@ M2('C14', 'module-cache-dict', [(TS, "def _blocks_metadata(\n    options: Option
 M('C14', 'sketchy-count-float', SK, "  return _SketchyState(\n      count=jnp.zeros([], jnp.int32),", "  return _SketchyState(\n      count=jnp.zeros([], jnp.float32),")
 M('C14', 'state-attr-store', GR, "    new_state = GraftingState(\n        count=state.count + 1,\n        direction=base_state,\n        norm=graft_state,\n    )", "    new_state = GraftingState(\n        count=state.count + 1,\n        direction=base_state,\n        norm=graft_state,\n    )\n    direction.last_state = base_state")
 M('C14', 'clock-dependent-interval', TS, "  should_update_stats = (state.count % options.update_statistics_freq) == 0", "  import time\n  should_update_stats = ((state.count + int(time.time()) % 1) % options.update_statistics_freq) == 0")
+M2('C14', 'exponents-list-captured', [(DS, "    original_shapes = []\n    exponents = []\n    max_size = 0\n    prev_preconditioners = []\n", "    original_shapes = []\n    exponents = _shared_exponents\n    max_size = 0\n    prev_preconditioners = []\n"),
+  (DS, "  def _compute_preconditioners(states, params, step):", "  _shared_exponents = []\n\n  def _compute_preconditioners(states, params, step):")])
 TW('C14', 'twin-local-list-building', DS, "    new_padded_statistics = []\n    padding_starts = []", "    new_padded_statistics = list()\n    padding_starts = []")
 
 # ------------------------------------------------------------------ C15
